@@ -161,6 +161,10 @@ def _run_case(case, ctx):
         except Exception as e:  # noqa
             viol("fixed-raises-%s" % type(e).__name__, "all-fixed" if all_fixed else "some-fixed", "fixed_modes=%s raised %s: %s" % (fixed, type(e).__name__, str(e)[:150]), desc2)
             return
+        if rf.get("bare_return"):
+            viol("return-contract", "all-fixed" if all_fixed else "some-fixed", "with return_errors=True and fixed_modes=%s the call returned a bare %s instead of (decomposition, errors): "
+                 "`dec, errs = ...` silently unpacks the weights and the factor list" % (fixed, type(rf["decomp"]).__name__), desc2)
+            return
         wf, ff = decomp.snapshot(rf["decomp"])
         carrier = order - 1  # the weights of the init may legitimately be folded into the last factor
         if all_fixed:
@@ -213,7 +217,15 @@ def _run_case(case, ctx):
         scale = float(np.max(absb)) + 1e-300
         try:
             ff = (list(fixed) if isinstance(fixed, list) else fixed) if len(fixed) else None
-            out = D.tucker(X, rk, fixed_factors=ff, n_iter_max=sweeps, init=init, tol=0, random_state=seed, **({"mask": mask} if mask is not None else {}))
+            want_errors = bool(rs.rand() < 0.5)
+            out = D.tucker(X, rk, fixed_factors=ff, n_iter_max=sweeps, init=init, tol=0, random_state=seed, return_errors=want_errors, **({"mask": mask} if mask is not None else {}))
+            if want_errors:
+                ctx.count("clause/return-contract")
+                if not (type(out) is tuple and len(out) == 2 and isinstance(out[1], list)):
+                    viol("return-contract", "all-fixed" if all_fixed else "some-fixed", "tucker(fixed_factors=%s, return_errors=True) returned %s instead of (decomposition, errors)" % (
+                        fixed, type(out).__name__), desc)
+                    return
+                out = out[0]
         except Exception as e:  # noqa
             viol("fixed-raises-%s" % type(e).__name__, "all-fixed" if all_fixed else "some-fixed", "tucker(fixed_factors=%s) raised %s: %s" % (fixed, type(e).__name__, str(e)[:150]), desc)
             return
